@@ -171,8 +171,21 @@ func scenarioRead(op string) func(c *harness.Ctx) {
 			}
 		case n > 64:
 			pSampled.Hit()
+			// (long documents: a bounded number of drawn cut positions -- never
+			// "skip with probability", which a zeroed tape turns into "check all")
+			var cutPick map[int]bool
+			if n > 400 {
+				cutPick = map[int]bool{}
+				cnt := 200
+				if n > 200000 {
+					cnt = 20
+				}
+				for j := 0; j < cnt; j++ {
+					cutPick[1+tp.Choose(n-1)] = true
+				}
+			}
 			for i := 1; i < n; i++ {
-				if n > 400 && tp.Choose(n/200) != 0 {
+				if cutPick != nil && !cutPick[i] {
 					continue
 				}
 				fFrag.Hit()
@@ -183,8 +196,12 @@ func scenarioRead(op string) func(c *harness.Ctx) {
 			for k := 0; k < 12; k++ {
 				var cuts []int
 				pos := 0
+				maxStep := 24
+				if n > 200000 {
+					maxStep = n / 40 // keep the number of draws (and the tape) small
+				}
 				for pos < n {
-					pos += 1 + tp.Choose(1+tp.Choose(24))
+					pos += 1 + tp.Choose(1+tp.Choose(maxStep))
 					cuts = append(cuts, pos)
 				}
 				fFrag.Hit()
@@ -266,21 +283,46 @@ func scenarioRead(op string) func(c *harness.Ctx) {
 		// ---- failure at every offset k < len(doc): never success
 		errs := []error{io.EOF, io.ErrUnexpectedEOF, simio.ErrInjected}
 		faults := []simrt.Counter{fEOF, fUEOF, fInjected}
+		mega := n > 200000
+		var megaPick map[int]bool
+		if mega {
+			pMega.Hit()
+			megaPick = map[int]bool{n - 1: true, n - 2: true, n - 3: true, n / 2: true}
+			for i := 0; i < 24; i++ {
+				megaPick[tp.Choose(n)] = true
+			}
+			for b := 1 << 16; b < n; b <<= 1 {
+				megaPick[b], megaPick[b-1], megaPick[b+1] = true, true, true
+			}
+		}
+		var offPick map[int]bool
+		if !mega && n > 600 {
+			offPick = map[int]bool{}
+			for j := 0; j < 300; j++ {
+				offPick[tp.Choose(n)] = true
+			}
+		}
 		for k := 0; k < n; k++ {
+			if mega && !megaPick[k] {
+				continue
+			}
 			// long documents: sampled offsets, but always the ones next to
 			// multiples of typical buffer/batch sizes and the very last bytes
 			structured := k%256 <= 1 || k%256 == 255 || k%4096 < 24 || k >= n-3
-			if n > 600 && !structured && tp.Choose(n/300) != 0 {
+			if offPick != nil && !structured && !offPick[k] {
 				continue
 			}
 			nVariants := 2
-			if c.Tier == "thorough" {
+			if c.Tier == "thorough" && !mega {
 				nVariants = 12 // every error kind x with/without data x contiguous/one-byte
 			}
 			for variant := 0; variant < nVariants; variant++ {
 				e := (k + variant*2 + tp.Choose(3)) % 3
 				withData := variant == 1 && k > 0
 				oneByte := tp.Bool(1, 3)
+				if mega {
+					oneByte = false // a megabyte one byte at a time costs a second per execution
+				}
 				if nVariants == 12 {
 					e = variant % 3
 					withData = (variant/3)%2 == 1 && k > 0
@@ -362,8 +404,15 @@ func scenarioWrite(op string) func(c *harness.Ctx) {
 		c.Fold(uint64(W))
 		c.Nontrivial = true
 		c.FP = harness.HashString(op) ^ uint64(W)*0x9E3779B97F4A7C15 ^ c.T.U64()
+		var wPick map[int]bool
+		if W > 600 {
+			wPick = map[int]bool{0: true, W - 1: true}
+			for j := 0; j < 300; j++ {
+				wPick[tp.Choose(W)] = true
+			}
+		}
 		for k := 0; k < W; k++ {
-			if W > 600 && tp.Choose(W/300) != 0 {
+			if wPick != nil && !wPick[k] {
 				continue
 			}
 			for _, sticky := range []bool{true, false} {
@@ -424,3 +473,5 @@ func TestWorker(t *testing.T) { harness.Main(t, prop) }
 var _ = tape.New
 
 var pBufio = simrt.NewProbe("reader.is.a.bufio.Reader")
+
+var pMega = simrt.NewProbe("document.larger.than.1MiB")
